@@ -68,6 +68,106 @@ def _safe_verify(u, rlimit, seed):
         return ("uniterror", f"internal error: {e!r}", None)
 
 
+def _unit_json(unit, repo=None, seed=None, rlimit=None, timeout=1500):
+    """run `check unit <unit> --json` in a subprocess (optionally against another copy of the sources)"""
+    import subprocess
+    env = dict(os.environ)
+    if repo:
+        env["HQ_REPO"] = repo
+    cmd = [os.path.join(VERIF, "check"), "unit", unit, "--json"]
+    if seed is not None:
+        cmd += ["--seed", str(seed)]
+    if rlimit is not None:
+        cmd += ["--rlimit", str(rlimit)]
+    try:
+        p = subprocess.run(cmd, env=env, capture_output=True, text=True, timeout=timeout)
+    except subprocess.TimeoutExpired:
+        return {"unit": unit, "status": "undecided", "reason": "timeout", "failures": [], "undecided": []}
+    for line in p.stdout.splitlines():
+        if line.startswith("HQJSON "):
+            return json.loads(line[7:])
+    return {"unit": unit, "status": "undecided", "reason": (p.stdout + p.stderr)[-400:], "failures": [], "undecided": []}
+
+
+def run_thorough(prop, pc, units, seed):
+    """thorough tier = quick + (a) solver-stability run (3 more seeds, one of them at 4x rlimit) of every unit and
+    (b) the mutant audit: every committed property-breaking edit (mutants.json, seeded/<Cnn>-*/patch.diff) is applied to a scratch
+    copy of the sources and must make an obligation of the property's units fail; survivors are reported as weak contracts.
+    Neither part can turn a held property into an alarm: they describe how much the green result is worth."""
+    import shutil
+    import subprocess
+    import tempfile
+    out = {"stability": [], "mutants": [], "weak_contracts": []}
+    jobs = [(u, sd, rl) for u in units for (sd, rl) in ((seed + 11, 30), (seed + 12, 30), (seed + 13, 120))]
+    with concurrent.futures.ThreadPoolExecutor(max_workers=6) as ex:
+        futs = {ex.submit(_unit_json, u, None, sd, rl): (u, sd, rl) for (u, sd, rl) in jobs}
+        for fu in concurrent.futures.as_completed(futs):
+            u, sd, rl = futs[fu]
+            r = fu.result()
+            out["stability"].append({"unit": u, "seed": sd, "rlimit": rl, "status": r["status"], "failures": len(r["failures"]),
+                                     "failing": [f["fn"] + ": " + f["clause"][:80] for f in r["failures"]][:5]})
+    out["unstable_units"] = sorted({x["unit"] for x in out["stability"] if x["status"] != "ok" or x["failures"]})
+    # mutants
+    muts = []
+    mfile = os.path.join(VERIF, "mutants.json")
+    if os.path.exists(mfile):
+        for m in json.load(open(mfile)).get(prop, []):
+            muts.append(dict(m, kind="edit"))
+    import glob
+    for d in sorted(glob.glob(os.path.join(VERIF, "seeded", prop + "-*"))):
+        if os.path.exists(os.path.join(d, "patch.diff")):
+            muts.append({"id": os.path.basename(d), "kind": "patch", "patch": os.path.join(d, "patch.diff"), "units": units})
+
+    def one(m):
+        root = tempfile.mkdtemp(prefix="hqmut.", dir=os.environ.get("VERIF_SCRATCH", "/var/tmp"))
+        try:
+            shutil.copytree(os.path.join(REPO, "crates"), os.path.join(root, "crates"))
+            if m["kind"] == "patch":
+                p = subprocess.run(["patch", "-p1", "-s", "-i", m["patch"]], cwd=root, capture_output=True, text=True)
+                if p.returncode != 0:
+                    return {"id": m["id"], "result": "not-applicable (patch does not apply to the current tree)"}
+            else:
+                fp = os.path.join(root, m["file"])
+                src = open(fp).read()
+                if m["old"] not in src:
+                    return {"id": m["id"], "result": "not-applicable (anchor text not in the current tree)"}
+                open(fp, "w").write(src.replace(m["old"], m["new"], 1))
+            killed_by = []
+            und = []
+            for u in m.get("units") or units:
+                r = _unit_json(u, repo=root)
+                if r["failures"]:
+                    killed_by += [f"{u}::{f['fn']}: {f['msg']}: {f['clause'][:100]}" for f in r["failures"]][:3]
+                    break
+                if r["status"] != "ok":
+                    und.append(f"{u}: {r['reason'][:150]}")
+            if not killed_by and pc.get("kani"):
+                # Kani kernels of the property (the whole quick check against the mutated sources)
+                env = dict(os.environ, HQ_REPO=root)
+                try:
+                    pr = subprocess.run([os.path.join(VERIF, "check"), prop, "--tier", "quick"], env=env, capture_output=True, text=True, timeout=3000)
+                    vl = [l for l in pr.stdout.splitlines() if l.startswith("VIOLATION")]
+                    if pr.returncode == 1 and vl:
+                        killed_by = [v[:200] for v in vl[:2]]
+                except subprocess.TimeoutExpired:
+                    und.append("kani: timeout")
+            return {"id": m["id"], "note": m.get("note", ""), "result": "killed" if killed_by else ("undecided" if und else "SURVIVED"),
+                    "by": killed_by, "undecided": und}
+        finally:
+            shutil.rmtree(root, ignore_errors=True)
+
+    with concurrent.futures.ThreadPoolExecutor(max_workers=5) as ex:
+        for r in ex.map(one, muts):
+            out["mutants"].append(r)
+    out["weak_contracts"] = [r["id"] for r in out["mutants"] if r["result"] == "SURVIVED"]
+    out["mutants_killed"] = sum(1 for r in out["mutants"] if r["result"] == "killed")
+    out["mutants_total"] = len(out["mutants"])
+    print(f"{prop}: thorough: stability runs={len(out['stability'])} unstable_units={out['unstable_units']} "
+          f"mutants killed={out['mutants_killed']}/{out['mutants_total']} survived={out['weak_contracts']} "
+          f"undecided={[r['id'] for r in out['mutants'] if r['result'] == 'undecided']}")
+    return out
+
+
 def main(argv):
     ap = argparse.ArgumentParser()
     ap.add_argument("prop")
@@ -204,6 +304,10 @@ def main(argv):
             if kr["status"] == "SUCCESS":
                 discharged += kr.get("checks", 1)
 
+    thorough = None
+    if args.tier == "thorough":
+        thorough = run_thorough(prop, pc, units, seed)
+
     wall = time.time() - t0
     os.makedirs(os.path.join(VERIF, "evidence"), exist_ok=True)
     os.makedirs(os.path.join(VERIF, "replay"), exist_ok=True)
@@ -258,6 +362,7 @@ def main(argv):
             "obligation_counting_rule": "sites counted from the assembled Verus text per function: ensures clauses + 2x loop-invariant clauses + panic sites (assert!/unreachable!/unwrap/expect/index) in obligation mode + proof asserts + arithmetic sites; Verus discharges each as one or more SMT queries",
         },
         "assumptions": pc.get("assumptions", []),
+        "thorough": thorough,
         "wall_s": round(wall, 2),
         "violations": len(violations),
     }
